@@ -377,7 +377,9 @@ class Spec:
         res = {"verdict": "violation" if viol else "ok", "violations": viol, "digest": director.digest(),
                "signature": director.signature(), "steps": director.step, "switches": director.switches,
                "preemptions": director.switches, "sync_events": len(director.results), "max_live": director.max_live,
-               "probes": probes, "faults": {}, "strategy": f"sticky{plan['stickiness']}",
+               "probes": probes, "strategy": f"sticky{plan['stickiness']}",
+               # fired, not merely planned: an access of the chosen child actually failed with the injected error
+               "faults": ({"open-EMFILE": n_inj} if (n_inj := sum(1 for _, r in director.results if r[0] == "error" and "injected" in str(r[2]))) else {}),
                "nontrivial": director.max_live >= 2 and director.switches >= 2,
                "plan": plan, "streams": choice.streams(), "end": "complete", "reads_checked": checked}
         if trace:
